@@ -167,3 +167,28 @@ Proof.
   destruct (Nat.leb (ps_max st) (List.length cs)); cbn in Hin; [contradiction|].
   apply in_app_or in Hin. destruct Hin as [Hc|[<-|[]]]; [contradiction|]. cbn. tauto.
 Qed.
+
+(* ---------- the address a long-poll request names ---------- *)
+Fixpoint no_slash (s : string) : Prop :=
+  match s with
+  | EmptyString => True
+  | String c s' => Ascii.eqb c "/" = false /\ no_slash s'
+  end.
+
+Lemma cut_slash_exact : forall g id, no_slash g -> cut_slash (g ++ String "/" id) = (g, Some id).
+Proof.
+  induction g as [|c g IH]; intros id H; cbn.
+  - reflexivity.
+  - destruct H as [Hc Hg]. rewrite Hc. rewrite (IH id Hg). reflexivity.
+Qed.
+
+Lemma poll_path_exact : forall g id, no_slash g -> poll_path (String "/" (g ++ String "/" id)) = Some (g, id).
+Proof. intros g id H. cbn. rewrite (cut_slash_exact g id H). reflexivity. Qed.
+
+Lemma cut_slash_none : forall g, no_slash g -> cut_slash g = (g, None).
+Proof.
+  induction g as [|c g IH]; intros H; cbn; [reflexivity|]. destruct H as [Hc Hg]. rewrite Hc, (IH Hg). reflexivity.
+Qed.
+
+Lemma poll_path_needs_id : forall g, no_slash g -> poll_path (String "/" g) = None.
+Proof. intros g H. cbn. rewrite (cut_slash_none g H). reflexivity. Qed.
